@@ -259,6 +259,41 @@ func runSerial(raw json.RawMessage, seed int64) (res Result) {
 			case "all-zero":
 				x, y = big.NewInt(0), big.NewInt(0)
 			}
+			if c.C.Body == "valid-xy" || c.C.Body == "compressed-form" || c.C.Body == "prefixed-04" {
+				// a valid encoding of the point in ANOTHER X9.62 form, handed to the wrong decoder
+				var b []byte
+				var pref byte
+				fmt.Sscanf(c.C.Val, "%02x", &pref)
+				switch c.C.Body {
+				case "valid-xy": // 04 / 06 / 07 || X || Y with matching parity for the hybrid forms
+					if pref != 4 && y.Bit(0) != uint(pref&1) {
+						y = new(big.Int).Sub(cur.P, y)
+					}
+					b = make([]byte, 65)
+					b[0] = pref
+					x.FillBytes(b[1:33])
+					y.FillBytes(b[33:])
+				case "compressed-form":
+					b = make([]byte, 33)
+					b[0] = 2 + byte(y.Bit(0))
+					x.FillBytes(b[1:])
+					b = fit(b, c.C.Len)
+				default:
+					b = make([]byte, 65)
+					b[0] = 4
+					x.FillBytes(b[1:33])
+					y.FillBytes(b[33:])
+					b = fit(b, c.C.Len)
+				}
+				if c.C.Dec == "ecdsa-pk-raw" {
+					pk, err := crypto.DecodePublicKey(cv.a, b)
+					check("DecodePublicKey("+cur.Name+")", b, err, func() []byte { return pk.Encode() })
+				} else {
+					pk, err := crypto.DecodePublicKeyCompressed(cv.a, b)
+					check("DecodePublicKeyCompressed("+cur.Name+")", b, err, func() []byte { return pk.EncodeCompressed() })
+				}
+				continue
+			}
 			if c.C.Dec == "ecdsa-pk-raw" {
 				b := make([]byte, 64)
 				x.FillBytes(b[:32])
